@@ -45,6 +45,14 @@ type sink struct {
 	C []countRec       `json:"c"`
 	F []common.Failure `json:"f"`
 	Q []coqRec         `json:"q"`
+	D []docRec         `json:"d"`
+	S []coqRec         `json:"s"`
+}
+
+// docRec: one case for Front/RunDoc.v (an endpoint body or an `@x =:` block as the real listener handled it)
+type docRec struct {
+	Term string `json:"t"`
+	RP   replay `json:"r"`
 }
 type countRec struct {
 	Key string `json:"k"`
@@ -71,9 +79,28 @@ func (s *sink) toCoq(toks []tokInfo, rp replay) {
 	s.Q = append(s.Q, coqRec{gCase(toks), rp, len(toks)})
 }
 
+// toState: the same text once more through the real lexer, this time with the lexerState after every token
+func (s *sink) toState(text string, rp replay) {
+	toks, states, ok := lexStates(text)
+	if !ok {
+		s.Hist("state-case-skipped(lexer did not finish / field out of packed range)")
+		return
+	}
+	if len(toks) > 4000 {
+		return
+	}
+	s.S = append(s.S, coqRec{gStateCase(toks, states), rp, len(toks)})
+}
+
 type runner struct {
 	c        *common.Ctx
 	cs       *common.Cases
+	ds       *common.Cases // doc-string / annotation cases
+	docCap   int
+	ss       *common.Cases // full lexer state cases
+	stToks   int
+	stCap    int
+	stFile   int
 	corpusFs afero.Fs
 	coqToks  int
 	coqCap   int
@@ -124,6 +151,26 @@ func (r *runner) merge(s *sink) {
 		r.cs.Add(q.Term, smallRef(q.RP))
 		r.coqToks += q.NToks
 		r.fileToks += q.NToks
+	}
+	for _, q := range s.S {
+		if r.ss == nil || r.stToks+q.NToks > r.stCap {
+			r.c.Hist("state-case-dropped-over-token-cap")
+			continue
+		}
+		if r.stFile > 0 && r.stFile+q.NToks > 8000 {
+			r.ss.Close()
+			r.stFile = 0
+		}
+		r.ss.Add(q.Term, smallRef(q.RP))
+		r.stToks += q.NToks
+		r.stFile += q.NToks
+	}
+	for _, d := range s.D {
+		if r.ds == nil || r.ds.N() >= r.docCap {
+			r.c.Hist("doc-case-dropped-over-cap")
+			continue
+		}
+		r.ds.Add(d.Term, smallRef(d.RP))
 	}
 	*s = sink{}
 }
@@ -248,7 +295,7 @@ func (r *runner) shrink(s subject, d *Doc, orig compiled, steps []Step, kind str
 	}
 	for i := range steps {
 		st := steps[i]
-		if st.Op != "insert" && st.Op != "tabify" {
+		if st.Op != "insert" && st.Op != "tabify" && st.Op != "trail" && st.Op != "eolcomment" {
 			continue
 		}
 		for n := len(st.At); n > 1 && budget > 0; {
@@ -256,7 +303,7 @@ func (r *runner) shrink(s subject, d *Doc, orig compiled, steps []Step, kind str
 			for _, rg := range [][2]int{{0, n / 2}, {n / 2, n}} {
 				c := st
 				c.At = st.At[rg[0]:rg[1]]
-				if st.Op == "insert" {
+				if st.Op != "tabify" {
 					c.Text = st.Text[rg[0]:rg[1]]
 				} else {
 					c.Off = st.Off[rg[0]:rg[1]]
@@ -280,7 +327,21 @@ func (r *runner) shrink(s subject, d *Doc, orig compiled, steps []Step, kind str
 
 // abstract class of a failing script (after shrinking): which transformation, which kind of
 // inserted line, where (start / end of text, inside a view body, another lexer mode)
+// viewAtEOF: no final newline and the last line is lexed in the view mode
+func viewAtEOF(d *Doc) bool {
+	return !d.FinalNL && len(d.Lines) > 0 && d.Lines[len(d.Lines)-1].Mode == modeView
+}
+
 func failureKey(kind string, d *Doc, steps []Step) string {
+	if kind == "accept" && viewAtEOF(d) && len(steps) == 1 && steps[0].Op == "insert" {
+		allEnd := true
+		for _, b := range steps[0].At {
+			allEnd = allEnd && b == len(d.Lines)
+		}
+		if allEnd {
+			return "view-at-eof-unterminated:layout-line-after-it"
+		}
+	}
 	if kind == "accept" && d.FirstLineIndented() && len(steps) == 1 && steps[0].Op == "insert" {
 		all0 := true
 		for _, b := range steps[0].At {
@@ -294,6 +355,14 @@ func failureKey(kind string, d *Doc, steps []Step) string {
 	cur := d
 	for _, st := range steps {
 		p := st.Op
+		if (st.Op == "trail" || st.Op == "eolcomment") && len(st.At) > 0 && st.At[0] < len(cur.Lines) {
+			switch lt := strings.TrimSpace(cur.Lines[st.At[0]].Text); {
+			case strings.HasPrefix(lt, "import"):
+				p += "@import-line"
+			case strings.HasPrefix(lt, "!view"):
+				p += "@view-header"
+			}
+		}
 		if st.Op == "insert" && len(st.At) > 0 {
 			t := st.Text[0]
 			ws := leadOf(t)
@@ -325,6 +394,10 @@ func failureKey(kind string, d *Doc, steps []Step) string {
 				p += "@view"
 			case cur.Lines[b].Mode == modeOther:
 				p += "@othermode"
+			default:
+				if cl := boundaryClass(cur, b); cl != "other" && cl != "at-doc-run-edge" {
+					p += "@" + cl
+				}
 			}
 		}
 		parts = append(parts, p)
@@ -360,6 +433,8 @@ type job struct {
 	coqOrig    bool
 	coqVar     bool
 	exhaustive bool
+	multi      int // 0 = no; 1 = every boundary, two kinds of layout line each; 2 = every boundary x every kind
+	doc        bool
 	out        sink
 }
 
@@ -370,6 +445,8 @@ type jobReq struct {
 	NVariants        int
 	CoqOrig, CoqVar  bool
 	Exhaustive       bool
+	Multi            int
+	Doc              bool
 }
 
 func (r *runner) subject(j *job) {
@@ -387,6 +464,7 @@ func (r *runner) subject(j *job) {
 	}
 	if j.coqOrig {
 		c.toCoq(toks, replay{s.name, s.text, nil})
+		c.toState(s.text, replay{s.name, s.text, nil})
 	}
 	d := NewDoc(s.text, toks)
 	orig := r.compileSubject(s, s.text)
@@ -409,6 +487,7 @@ func (r *runner) subject(j *job) {
 		if coq {
 			if vtoks, ok := lexAll(vt); ok {
 				c.toCoq(vtoks, replay{s.name, s.text, steps})
+				c.toState(vt, replay{s.name, s.text, steps})
 			} else {
 				c.Fail("lexer-did-not-finish", s.name+": the lexer panicked or did not reach EOF on a re-laid-out text", replay{s.name, s.text, steps})
 			}
@@ -441,6 +520,18 @@ func (r *runner) subject(j *job) {
 			c.Fail(failureKey(v.kind, d, steps), fmt.Sprintf("%s: no final newline; after appending the line \"#\": %s", s.name, v.what), replay{s.name, s.text, steps})
 		}
 	}
+	if viewAtEOF(d) {
+		// a class of its own: the text ends, without a final newline, inside a view body
+		c.Hist("view-end-probe")
+		for _, k := range []string{"", "  ", "    # c"} {
+			steps := []Step{{Op: "insert", At: []int{len(d.Lines)}, Text: []string{k}}}
+			v, _ := r.check(s, d, orig, steps)
+			c.Count(s.name+"|"+fmt.Sprint(steps), true)
+			if v.bad {
+				c.Fail(failureKey(v.kind, d, steps), fmt.Sprintf("%s: the text ends in a view body without a final newline; after appending the line %q: %s", s.name, k, v.what), replay{s.name, s.text, steps})
+			}
+		}
+	}
 	for i := 0; i < j.nVariants; i++ {
 		var steps []Step
 		for k, n := 0, 1+rng.Intn(3); k < n; k++ {
@@ -459,6 +550,97 @@ func (r *runner) subject(j *job) {
 		}
 		run(steps, j.coqVar && i == 0)
 	}
+	if j.doc && orig.kind == "ok" {
+		// what the real listener made of the multi-line constructs of this text (Front/RunDoc.v)
+		emit := func(text string, steps []Step) {
+			var fs afero.Fs
+			if s.path != "" {
+				ov := afero.NewCopyOnWriteFs(r.corpusFs, afero.NewMemMapFs())
+				afero.WriteFile(ov, s.path, []byte(text), 0o644)
+				fs = ov
+			}
+			terms, _ := docCases(text, fs, s.path, c.Hist)
+			for _, t := range terms {
+				c.D = append(c.D, docRec{t, replay{s.name, s.text, steps}})
+			}
+		}
+		emit(s.text, nil)
+		if j.multi > 0 {
+			for _, k := range []string{"", "      # c"} {
+				st := r.allBoundaries(d, k)
+				if vd, ok := applyAll(d, st); ok && len(st) > 0 {
+					emit(vd.String(), st)
+				}
+			}
+		}
+	}
+	if j.multi > 0 {
+		// LAYOUT INSIDE MULTI-LINE CONSTRUCTS: a layout line at EVERY line boundary of the text - between two `| text`
+		// lines, inside `@x =:` blocks, between the lines of a list continued over lines, between annotations, before
+		// `else`, between the choices of a one-of - singly, and at all boundaries at once
+		kinds := []string{"", "   ", "\t", "#", "# c", "  # c", "\t#", "        # deep"}
+		nb := 0
+		for b := 0; b <= len(d.Lines); b++ {
+			ok := r.boundaryKinds(d, b, kinds)
+			if ok == nil {
+				continue
+			}
+			nb++
+			for ki, k := range kinds {
+				if !ok[ki] {
+					continue
+				}
+				if j.multi < 2 && ki != (b+int(j.seed%8))%len(kinds) && ki != (b+3+int(j.seed%8))%len(kinds) {
+					continue
+				}
+				c.Hist("every-boundary-insert:" + boundaryClass(d, b))
+				run([]Step{{Op: "insert", At: []int{b}, Text: []string{k}}}, false)
+			}
+		}
+		for _, k := range kinds {
+			if st := r.allBoundaries(d, k); len(st) > 0 {
+				c.Hist("all-boundaries-insert")
+				run(st, false)
+			}
+		}
+		c.Hist(fmt.Sprintf("multi-spec-boundaries=%d0s", nb/10))
+	}
+	if j.multi > 0 || j.exhaustive {
+		// blanks / a comment after the last token of EVERY line where that is layout: all at once, and each line singly
+		var at []int
+		for i, l := range d.Lines {
+			if l.TrailOK {
+				at = append(at, i)
+			}
+		}
+		rep := func(t string) []string {
+			out := make([]string, len(at))
+			for i := range out {
+				out[i] = t
+			}
+			return out
+		}
+		if len(at) > 0 {
+			for _, t := range []string{"  ", "\t"} {
+				c.Hist("every-line-trail")
+				run([]Step{{Op: "trail", At: at, Text: rep(t)}}, false)
+			}
+			for _, t := range []string{" # c", "  #", " #"} {
+				c.Hist("every-line-eolcomment")
+				run([]Step{{Op: "eolcomment", At: at, Text: rep(t)}}, false)
+			}
+			for n, i := range at {
+				if j.multi < 2 && !j.exhaustive && n%3 != int(j.seed%3) {
+					continue
+				}
+				run([]Step{{Op: "trail", At: []int{i}, Text: []string{"   "}}}, false)
+				run([]Step{{Op: "eolcomment", At: []int{i}, Text: []string{"  # c"}}}, false)
+			}
+		}
+		run([]Step{{Op: "crlf"}}, false)
+		run([]Step{{Op: "eofws", Text: []string{"   "}}}, false)
+		run([]Step{{Op: "eofws", Text: []string{"\t"}}}, false)
+	}
 	if j.exhaustive {
 		// every kind of layout line at every boundary, singly; every scale
 		kinds := []string{"", "   ", "\t", "#", "# c", "  # c", "\t#", "        # deep"}
@@ -467,6 +649,9 @@ func (r *runner) subject(j *job) {
 				continue
 			}
 			if b == 0 && d.FirstLineIndented() {
+				continue
+			}
+			if b == len(d.Lines) && viewAtEOF(d) {
 				continue
 			}
 			col0 := true
@@ -495,6 +680,86 @@ func (r *runner) subject(j *job) {
 	}
 }
 
+// boundaryKinds: which of the layout lines `kinds` may be put at boundary b (nil: none - the boundary lies inside a
+// multi-line token, or in front of an indented first line, which the start probe judges)
+func (r *runner) boundaryKinds(d *Doc, b int, kinds []string) []bool {
+	if b < len(d.Lines) && !d.Lines[b].Real {
+		return nil
+	}
+	if b == 0 && d.FirstLineIndented() {
+		return nil
+	}
+	if b == len(d.Lines) && viewAtEOF(d) {
+		return nil // view-end probe
+	}
+	col0 := true
+	if b < len(d.Lines) {
+		col0 = d.Lines[b].Decl
+	} else if len(d.Lines) > 0 {
+		col0 = d.Lines[len(d.Lines)-1].Mode == modeDefault
+	}
+	ok := make([]bool, len(kinds))
+	for ki, k := range kinds {
+		ok[ki] = true
+		if strings.HasPrefix(k, "#") && !col0 {
+			ok[ki] = false
+		}
+		if k == "#" && b == len(d.Lines) && !d.FinalNL {
+			ok[ki] = false // end probe
+		}
+	}
+	return ok
+}
+
+// allBoundaries: the layout line k at every boundary where it is allowed, in one step
+func (r *runner) allBoundaries(d *Doc, k string) []Step {
+	var at []int
+	var txt []string
+	for b := 0; b <= len(d.Lines); b++ {
+		if ok := r.boundaryKinds(d, b, []string{k}); ok != nil && ok[0] {
+			at, txt = append(at, b), append(txt, k)
+		}
+	}
+	if len(at) == 0 {
+		return nil
+	}
+	return []Step{{Op: "insert", At: at, Text: txt}}
+}
+
+// boundaryClass: the multi-line construct a boundary lies in, read off the neighbouring original lines
+func boundaryClass(d *Doc, b int) string {
+	prev, next := "", ""
+	for i := b - 1; i >= 0; i-- {
+		if !d.Lines[i].Ins {
+			prev = strings.TrimSpace(d.Lines[i].Text)
+			break
+		}
+	}
+	for i := b; i < len(d.Lines); i++ {
+		if !d.Lines[i].Ins {
+			next = strings.TrimSpace(d.Lines[i].Text)
+			break
+		}
+	}
+	switch {
+	case strings.HasPrefix(prev, "|") && strings.HasPrefix(next, "|"):
+		return "in-doc-run"
+	case strings.HasSuffix(prev, ",") || strings.HasSuffix(prev, "[") || strings.HasSuffix(prev, "("):
+		return "in-list"
+	case strings.HasSuffix(prev, "=:"):
+		return "after-anno-head"
+	case strings.HasPrefix(next, "else"):
+		return "before-else"
+	case strings.HasPrefix(prev, "@") && strings.HasPrefix(next, "@"):
+		return "in-anno-run"
+	case strings.HasPrefix(prev, "|") || strings.HasPrefix(next, "|"):
+		return "at-doc-run-edge"
+	case strings.HasPrefix(prev, "one of") || strings.HasPrefix(prev, "One of"):
+		return "after-one-of"
+	}
+	return "other"
+}
+
 // Subjects are handled by worker subprocesses (this binary with VERIF_WORKER=1), one subject at a time per
 // worker, each worker replaced after a number of subjects.  Reason (measured): pkg/grammar keeps per-lexer state
 // in a package-level lock-free map (cornelk/hashmap v1.0.1) whose element count goes wrong under concurrent
@@ -511,7 +776,7 @@ func (r *runner) runJobs(jobs []*job) {
 			n := 0
 			for i := range ch {
 				j := jobs[i]
-				req := jobReq{j.s.name, j.s.text, j.s.path, j.seed, j.nVariants, j.coqOrig, j.coqVar, j.exhaustive}
+				req := jobReq{j.s.name, j.s.text, j.s.path, j.seed, j.nVariants, j.coqOrig, j.coqVar, j.exhaustive, j.multi, j.doc}
 				ok := false
 				for try := 0; try < 2 && !ok; try++ {
 					var out sink
@@ -581,7 +846,7 @@ func workerMain() {
 		if q.Path != "" && r.corpusFs == nil {
 			_, r.corpusFs = loadCorpus(repo)
 		}
-		j := &job{s: subject{q.Name, q.Text, q.Path}, seed: q.Seed, nVariants: q.NVariants, coqOrig: q.CoqOrig, coqVar: q.CoqVar, exhaustive: q.Exhaustive}
+		j := &job{s: subject{q.Name, q.Text, q.Path}, seed: q.Seed, nVariants: q.NVariants, coqOrig: q.CoqOrig, coqVar: q.CoqVar, exhaustive: q.Exhaustive, multi: q.Multi, doc: q.Doc}
 		r.subject(j)
 		return j.out
 	})
@@ -757,7 +1022,7 @@ func main() {
 	os.Stdout, os.Stderr = devnull, devnull
 	logrus.SetOutput(io.Discard)
 
-	c.Res.Rule = "each case = (text, layout script): the text is a corpus .sysl file or a generated specification; the script composes scale k / shrink k (leading whitespace of every line), tabify (a 4-space unit of the leading spaces replaced by a tab, at the front, at the end = spaces-then-tab, or in the middle), insertion of blank lines (empty or whitespace of any width) and whole-line comments (column 0 `#`, `# text`, or indented) at line boundaries; the Go oracle compiles both texts with the real parser and compares acceptance and the modules after clearing source contexts; lexed texts also go to Coq as token-level cases; distinct = distinct (text, script); non-trivial = the original compiles"
+	c.Res.Rule = "each case = (text, layout script): the text is a corpus .sysl file or a generated specification; the script composes trail / eolcomment (blanks or a `#` comment after the last token of lines that end in a structural default-mode token), crlf / lf (all line ends), eofws (an unterminated last line of blanks), scale k / shrink k (leading whitespace of every line), tabify (a 4-space unit of the leading spaces replaced by a tab, at the front, at the end = spaces-then-tab, or in the middle), insertion of blank lines (empty or whitespace of any width) and whole-line comments (column 0 `#`, `# text`, or indented) at line boundaries; the Go oracle compiles both texts with the real parser and compares acceptance and the modules after clearing source contexts; lexed texts also go to Coq as token-level cases, and the endpoint bodies / `@x =:` blocks of generated texts as listener-level cases (parse events + what the real listener stored); the multi-line-construct stream puts a layout line at EVERY line boundary of the text (singly and at all boundaries at once); distinct = distinct (text, script); non-trivial = the original compiles"
 	repo := os.Getenv("VERIF_REPO")
 	if repo == "" {
 		repo = "/repo"
@@ -772,9 +1037,26 @@ Notation T := true. Notation F := false.`
 		r.coqCap = 1200000
 	}
 	r.cs = c.NewCases("C03", header, "c03_case", footer, 1500)
+	r.ds = c.NewCases("C03doc", `From Coq Require Import Ascii String List NArith Bool. Import ListNotations.
+Require Import Verif.Front.DocStr Verif.Front.RunDoc Verif.Base.Harness.
+Local Open Scope string_scope. Local Open Scope N_scope.`, "doc_case", `Definition M := Eval vm_compute in mismatches doc_ok cases. Print M.`, 400)
+	r.docCap = 1600
+	r.ss = c.NewCases("C03st", `From Coq Require Import List NArith Bool. Import ListNotations.
+Require Import Verif.Front.Indent Verif.Front.Lines Verif.Front.Run Verif.Front.RunState Verif.Base.Harness.
+Local Open Scope N_scope.
+Notation T := true. Notation F := false.`, "st_case", `Definition M := Eval vm_compute in mismatches st_ok cases. Print M.`, 1500)
+	r.stCap = 40000
+	if c.Thorough() {
+		r.docCap = 12000
+		r.stCap = 600000
+	}
 	defer func() {
 		r.cs.Close()
+		r.ds.Close()
+		r.ss.Close()
+		c.Res.Extra["tokens_with_full_state_compared_in_coq"] = r.stToks
 		c.Res.Extra["tokens_compared_in_coq"] = r.coqToks
+		c.Res.Extra["doc_cases_compared_in_coq"] = r.ds.N()
 	}()
 
 	if c.Replay != "" {
@@ -799,8 +1081,15 @@ Notation T := true. Notation F := false.`
 			return
 		}
 		out.toCoq(toks, rp)
+		out.toState(rp.Text, rp)
 		d := NewDoc(rp.Text, toks)
 		orig := compileText(rp.Text)
+		if orig.kind == "ok" {
+			terms, _ := docCases(rp.Text, nil, "", out.Hist)
+			for _, t := range terms {
+				out.D = append(out.D, docRec{t, rp})
+			}
+		}
 		s := subject{name: rp.Name, text: rp.Text}
 		v, vt := r.check(s, d, orig, rp.Steps)
 		out.Count(rp.Name, true)
@@ -834,6 +1123,17 @@ Notation T := true. Notation F := false.`
 				}
 			}
 			memNote(c, "benchcorpus")
+			return
+		}
+		if os.Getenv("C03_BENCH") == "multigen" {
+			g := &gen{r: c.Rng}
+			for i := 0; i < 20; i++ {
+				text := render(c.Rng, g.multiSpec(), renderOpts{trailNL: true})
+				fmt.Fprintf(realOut, "multi spec %d: %d lines, %d bytes, compiles: %s\n", i, strings.Count(text, "\n"), len(text), compileText(text).kind)
+				if i < 2 {
+					fmt.Fprintln(realOut, text)
+				}
+			}
 			return
 		}
 		if os.Getenv("C03_BENCH") == "gen" {
@@ -878,7 +1178,10 @@ Notation T := true. Notation F := false.`
 		L++
 	}
 	t0 := time.Now()
-	r.calcProbes(L)
+	only := os.Getenv("C03_ONLY") // development aid: run one stream only
+	if only == "" {
+		r.calcProbes(L)
+	}
 	c.Res.Extra["calc_probe_max_len"] = L
 
 	// 2. generated specifications (first: they are small, so their token-level cases fit under the cap)
@@ -888,6 +1191,9 @@ Notation T := true. Notation F := false.`
 	}
 	if c.Search {
 		ng *= 3
+	}
+	if only != "" {
+		ng = 0
 	}
 	g := &gen{r: c.Rng}
 	var jobs []*job
@@ -904,9 +1210,31 @@ Notation T := true. Notation F := false.`
 			nvg = 3
 		}
 		jobs = append(jobs, &job{s: subject{name: fmt.Sprintf("generated-%d", i), text: text}, seed: c.Rng.Uint64(), nVariants: nvg,
-			coqOrig: true, coqVar: true, exhaustive: i%40 == 0 && len(text) < 1000})
+			coqOrig: true, coqVar: true, exhaustive: i%40 == 0 && len(text) < 1000, doc: true})
 		if i < 3 {
 			c.Sample(map[string]interface{}{"generated_text": text})
+		}
+	}
+	// 2b. specifications rich in multi-line constructs: a layout line at every line boundary
+	nm, full := 14, 0
+	if c.Thorough() {
+		nm, full = 60, 16
+	}
+	if c.Search {
+		nm *= 3
+	}
+	for i := 0; i < nm; i++ {
+		o := renderOpts{sameWidth: c.Rng.Chance(1, 4), blanks: c.Rng.Chance(1, 5), trailNL: !c.Rng.Chance(1, 6), crlf: c.Rng.Chance(1, 25)}
+		text := render(c.Rng, g.multiSpec(), o)
+		c.Hist("generated:multi-line-constructs")
+		m := 1
+		if i < full || (c.Search && i%4 == 0) {
+			m = 2
+		}
+		jobs = append(jobs, &job{s: subject{name: fmt.Sprintf("multi-%d", i), text: text}, seed: c.Rng.Uint64(), nVariants: 2,
+			coqOrig: true, coqVar: true, multi: m, doc: true})
+		if i == 0 {
+			c.Sample(map[string]interface{}{"multi_line_text": text})
 		}
 	}
 	r.runJobs(jobs)
@@ -923,12 +1251,15 @@ Notation T := true. Notation F := false.`
 		nv *= 3
 	}
 	jobs = nil
+	if only != "" {
+		subs = nil
+	}
 	for i, s := range subs {
 		if !c.Thorough() && !c.Search && (i+int(c.Seed))%2 != 0 {
 			continue // quick: every other corpus file, alternating with the seed
 		}
 		coq := (i+int(c.Seed))%coqEvery == 0 && r.planCoq(s.text)
-		jobs = append(jobs, &job{s: s, seed: c.Rng.Uint64(), nVariants: nv, coqOrig: coq, coqVar: coq, exhaustive: c.Thorough() && len(s.text) < 700})
+		jobs = append(jobs, &job{s: s, seed: c.Rng.Uint64(), nVariants: nv, coqOrig: coq, coqVar: coq, exhaustive: c.Thorough() && len(s.text) < 700, doc: len(s.text) < 40000})
 	}
 	r.runJobs(jobs)
 	c.Res.Extra["t_corpus_s"] = time.Since(t0).Seconds()
